@@ -55,10 +55,10 @@ func c19Histories(cfg *sim.Cfg, length int, limit int) []c19hist {
 }
 
 func c19Cfgs() (*sim.Cfg, *sim.Cfg) {
-	c1 := sim.RelCfg("c19-w1", 0, 2, 0, 1, fBld|fMove|fRet|fBRem|fBSet|fReg|fReset, sim.OState|sim.OTranscript)
+	c1 := sim.RelCfg("c19-w1", 0, 2, 0, 1, fBld|fMove|fRet|fBRem|fBSet|fBExch|fReg|fReset, sim.OState|sim.OTranscript)
 	c1.Listener = true
 	c1.Oracles |= sim.OEvents
-	c2 := sim.RelCfg("c19-w2", 1, 2, 0, 2, fBld|fMove|fRet|fBRem|fBSet|fReg|fReset, sim.OState|sim.OTranscript)
+	c2 := sim.RelCfg("c19-w2", 1, 2, 0, 2, fBld|fMove|fRet|fBRem|fBSet|fBExch|fReg|fReset, sim.OState|sim.OTranscript)
 	return c1.P("C19"), c2.P("C19")
 }
 
